@@ -1,6 +1,16 @@
 """Texts for MANIFEST.json (kept next to the contracts so that claims and contracts change together)."""
 
 CLAIMED = {
+    'C11': dict(
+        engine='pyvc (K1)', category='proof', design_ref='DESIGN.md section 3 / C11',
+        technique='contract-based deductive verification with ghost (history) variables: VCs from the real AST of simultaneousScheduler.py, scheduler.py, agent.py, model.py, discharged by z3',
+        text='For every queue, registry (any creation/deletion history, via wf_registry) and dt: the distribution loop of run_step pops every event queued at entry exactly once; a delayed event with delay>0 is held back with delay-dt; every other event is put exactly once into the inbox of the agent whose id equals receiver_id, or reaches nobody if no live agent has that id; later-queued events are delivered first (and handle_events pops from the end, restoring send order); handle_events drains the inbox in every state and dispatches each event exactly once to the handler registered for its name. The real-arithmetic lemma "released after exactly ceil(delay/dt) passes" is discharged separately.',
+        note='Assumed: callback contract on user code; reals for floats; scheduler is the SimultaneousScheduler. Composition over several steps is a paper lemma. Per-event clauses are conditional on the queue holding no event object twice. Three genuine defects found by these obligations were repaired with fix: commits (routing by list position, stale inbox in states without handlers, division by stoptime 0).'),
+    'C12': dict(
+        engine='pyvc (K1)', category='proof', design_ref='DESIGN.md section 3 / C12',
+        technique='contract-based deductive verification with a ghost callback trace and nested loop invariants over the real AST of simultaneousScheduler.py and model.py, discharged by z3',
+        text='run_step is proved to emit exactly the specified callback trace for all populations, rounds, steps and dt>0 (begin; handle and act per agent in list order; end; statistics iff data collection is on or (round==stoptime and step==round(1/dt)-1)), and to set time=round+step*dt; run() is proved to execute a successor chain of (round, step) from (start,0) to (stop,S-1), i.e. every step once in order, while running stays true; Model.run/run_step are proved to delegate (run_step(step) is scheduler step (0, step)).',
+        note='Assumed: callbacks follow the callback contract (no registry/running changes mid-step), integer start/stop, reals for floats, round(x) within 1/2 of x. Thread-per-scenario runner not decided.'),
     'C13': dict(
         engine='pyvc (K1)', category='proof', design_ref='DESIGN.md section 3 / C13',
         technique='contract-based deductive verification: VCs generated from the real AST of dataCollector.py (nested loop invariants, recurrence-defined aggregates), discharged by z3',
@@ -14,5 +24,5 @@ CLAIMED = {
 }
 
 _TODO = 'not yet built in this round: contracts for this property are planned in DESIGN.md but no check is registered until it is green on the unchanged tree and red on its seeded changes'
-NOT_APPLICABLE = {p: _TODO for p in ['C01', 'C02', 'C03', 'C04', 'C05', 'C06', 'C07', 'C08', 'C09', 'C10', 'C11', 'C12',
+NOT_APPLICABLE = {p: _TODO for p in ['C01', 'C02', 'C03', 'C04', 'C05', 'C06', 'C07', 'C08', 'C09', 'C10',
                                      'C15', 'C16', 'C17', 'C18', 'C19', 'C20']}
